@@ -88,6 +88,7 @@ type rootsScen struct {
 	prices         proto4.HostPrices
 	auth           bool
 	full           bool
+	fgn            foreign
 }
 
 type rootsSt struct {
@@ -116,7 +117,14 @@ func (w *world) rootsScenarios() []rootsScen {
 	}
 	e := mk("expired-prices", 10, 6, rich, 0, 2, false)
 	e.prices, e.auth = w.badPrices, false
-	return append(s, e)
+	s = append(s, e)
+	for i, f := range []foreign{"a", "b", "c", "d"} {
+		sc := mk(foreignNames[f], 11+byte(i), 6, rich, 2, 3, false)
+		sc.fgn, sc.prices = f, w.fPrices(f)
+		sc.auth = w.pricesByContractHost(sc.prices)
+		s = append(s, sc)
+	}
+	return s
 }
 
 func (sc *rootsScen) valid() bool {
@@ -125,7 +133,7 @@ func (sc *rootsScen) valid() bool {
 }
 
 func (w *world) rootsCorrs(sc *rootsScen) []corr {
-	if !sc.valid() {
+	if !sc.valid() || sc.fgn != "" {
 		return []corr{honestCorr}
 	}
 	cs := []corr{honestCorr}
@@ -183,7 +191,7 @@ func (w *world) rootsCorrs(sc *rootsScen) []corr {
 }
 
 func (w *world) runRoots(sc *rootsScen, c corr) *result {
-	r := &result{rpc: "roots", scen: sc.name, corr: c.name}
+	r := &result{rpc: "roots", scen: sc.name, corr: c.name, peer: w.fPeer(sc.fgn)}
 	var res rhp4.RPCSectorRootsResult
 	var err error
 	old := sc.contract.Revision
@@ -201,7 +209,7 @@ func (w *world) runRoots(sc *rootsScen, c corr) *result {
 		resp := proto4.RPCSectorRootsResponse{
 			Proof:         proto4.BuildSectorRootsProof(sc.roots, req.Offset, req.Offset+req.Length),
 			Roots:         cloneHashes(sc.roots[req.Offset : req.Offset+req.Length]),
-			HostSignature: w.hk.SignHash(w.cs.ContractSigHash(local)),
+			HostSignature: w.fSigner(sc.fgn).SignHash(w.cs.ContractSigHash(local)),
 		}
 		st := &rootsSt{sc: sc, req: &req, resp: &resp}
 		st.sig = &sigSt{w: w, sig: &resp.HostSignature, local: local, prev: old, other: sc.other.Revision, renterSig: req.RenterSignature}
@@ -229,7 +237,8 @@ func (w *world) runRoots(sc *rootsScen, c corr) *result {
 	obs := "OErr"
 	if r.ok {
 		obs = revObs(w, res.Revision, res.Usage, uint64(len(res.Roots)))
-		if !sc.valid() || !slices.Equal(res.Roots, sc.roots[sc.offset:sc.offset+sc.length]) {
+		inRange := sc.length > 0 && sc.offset <= uint64(len(sc.roots)) && sc.length <= uint64(len(sc.roots))-sc.offset
+		if !inRange || !slices.Equal(res.Roots, sc.roots[sc.offset:sc.offset+sc.length]) {
 			r.fail("roots-returns-foreign-roots", "RPCSectorRoots(offset=%d,length=%d) returned success with %d roots that are not the contract's roots [%d,%d)", sc.offset, sc.length, len(res.Roots), sc.offset, sc.offset+sc.length)
 		}
 		cost := mulU(bi(sc.prices.EgressPrice), round4k(32*sc.length))
@@ -238,7 +247,7 @@ func (w *world) runRoots(sc *rootsScen, c corr) *result {
 	_ = usage
 	r.coq = fmt.Sprintf("CRoots %s %s %s %d %d %s %d %s %s %s", w.nview(old), w.nprices(sc.prices), coqBool(sc.auth), sc.offset, sc.length,
 		coqBool(dec), len(resp.Roots), coqBool(proofOK), coqBool(sigOK), obs)
-	r.nontrivial = x.Streams > 0 && !c.honest()
+	r.nontrivial = x.Streams > 0 && (!c.honest() || sc.fgn != "")
 	return r
 }
 
@@ -254,6 +263,7 @@ type appendScen struct {
 	accept     []bool // the host's honest decision
 	prices     proto4.HostPrices
 	full       bool
+	fgn        foreign
 }
 
 type appendSt struct {
@@ -289,7 +299,7 @@ func (w *world) appendScenarios() []appendScen {
 		}
 		return appendScen{name: name, contract: c, roots: roots, other: o, otherRoots: oroots, add: newRoots(tag, k), accept: accept, prices: w.prices, full: full}
 	}
-	return []appendScen{
+	s := []appendScen{
 		mk("five-plus-three", 20, 5, 0, rich, 3, nil, true),
 		mk("empty-plus-two", 21, 0, 0, rich, 2, nil, true),
 		mk("eight-plus-one", 22, 8, 0, rich, 1, nil, false),
@@ -300,10 +310,19 @@ func (w *world) appendScenarios() []appendScen {
 		mk("insufficient-funds", 27, 5, 0, types.NewCurrency64(1000), 2, nil, false),
 		mk("no-sectors-requested", 28, 4, 0, rich, 0, nil, false),
 	}
+	for i, f := range []foreign{"a", "b", "c", "d"} {
+		sc := mk(foreignNames[f], 29+byte(i), 5, 0, rich, 3, nil, false)
+		sc.fgn, sc.prices = f, w.fPrices(f)
+		s = append(s, sc)
+	}
+	return s
 }
 
 func (w *world) appendCorrs(sc *appendScen) []corr {
 	cs := []corr{honestCorr}
+	if sc.fgn != "" {
+		return cs
+	}
 	add := func(name string, f func(st *appendSt)) {
 		cs = append(cs, corr{name: "msg1/" + name, msg: 1, typed: func(st any) { f(st.(*appendSt)) }})
 	}
@@ -391,7 +410,7 @@ func (w *world) appendCorrs(sc *appendScen) []corr {
 }
 
 func (w *world) runAppend(sc *appendScen, c corr) *result {
-	r := &result{rpc: "append", scen: sc.name, corr: c.name}
+	r := &result{rpc: "append", scen: sc.name, corr: c.name, peer: w.fPeer(sc.fgn)}
 	var res rhp4.RPCAppendSectorsResult
 	var err error
 	old := sc.contract.Revision
@@ -419,7 +438,7 @@ func (w *world) runAppend(sc *appendScen, c corr) *result {
 		if e != nil {
 			x.note("revise: %v", e)
 		}
-		sig := proto4.RPCAppendSectorsThirdResponse{HostSignature: w.hk.SignHash(w.cs.ContractSigHash(local))}
+		sig := proto4.RPCAppendSectorsThirdResponse{HostSignature: w.fSigner(sc.fgn).SignHash(w.cs.ContractSigHash(local))}
 		st.sig = &sigSt{w: w, sig: &sig.HostSignature, local: local, prev: old, other: sc.other.Revision, renterSig: rs.RenterSignature}
 		c.applyTyped(3, st)
 		b, _ = c.bytesOf(3, &sig)
@@ -465,7 +484,7 @@ func (w *world) runAppend(sc *appendScen, c corr) *result {
 	}
 	r.coq = fmt.Sprintf("CAppend %s %s %d %s %d %d %d %s %s %s %s", w.nview(old), w.nprices(sc.prices), len(sc.add), coqBool(dec1), len(resp.Accepted), ntrue,
 		w.id(resp.NewMerkleRoot), coqBool(proofOK), coqBool(dec3), coqBool(sigOK), obs)
-	r.nontrivial = x.Streams > 0 && !c.honest()
+	r.nontrivial = x.Streams > 0 && (!c.honest() || sc.fgn != "")
 	return r
 }
 
@@ -480,6 +499,7 @@ type freeScen struct {
 	idx        []uint64
 	prices     proto4.HostPrices
 	full       bool
+	fgn        foreign
 }
 
 type freeSt struct {
@@ -512,7 +532,7 @@ func (w *world) freeScenarios() []freeScen {
 		o, oroots := w.contract(tag+100, n, 0, rich)
 		return freeScen{name: name, contract: c, roots: roots, other: o, otherRoots: oroots, idx: idx, prices: w.prices, full: full}
 	}
-	return []freeScen{
+	s := []freeScen{
 		mk("six-free-1-and-3", 40, 6, rich, []uint64{1, 3}, true),
 		mk("six-free-first", 41, 6, rich, []uint64{0}, false),
 		mk("six-free-last", 42, 6, rich, []uint64{5}, false),
@@ -525,6 +545,12 @@ func (w *world) freeScenarios() []freeScen {
 		mk("invalid-index-far-out-of-range", 49, 5, rich, []uint64{1 << 40}, false),
 		mk("invalid-more-indices-than-sectors", 50, 2, rich, []uint64{0, 1, 2, 3}, false),
 	}
+	for i, f := range []foreign{"a", "b", "c", "d"} {
+		sc := mk(foreignNames[f], 51+byte(i), 6, rich, []uint64{1, 3}, false)
+		sc.fgn, sc.prices = f, w.fPrices(f)
+		s = append(s, sc)
+	}
+	return s
 }
 
 // freeProof is what an honest host answers for in-range normalized indices.
@@ -536,6 +562,9 @@ func freeProof(roots []types.Hash256, idxDesc []uint64) (tree, leaf []types.Hash
 
 func (w *world) freeCorrs(sc *freeScen) []corr {
 	cs := []corr{honestCorr}
+	if sc.fgn != "" {
+		return cs
+	}
 	add := func(name string, f func(st *freeSt)) {
 		cs = append(cs, corr{name: "msg1/" + name, msg: 1, typed: func(st any) { f(st.(*freeSt)) }})
 	}
@@ -601,7 +630,7 @@ func (w *world) freeCorrs(sc *freeScen) []corr {
 }
 
 func (w *world) runFree(sc *freeScen, c corr) *result {
-	r := &result{rpc: "free", scen: sc.name, corr: c.name}
+	r := &result{rpc: "free", scen: sc.name, corr: c.name, peer: w.fPeer(sc.fgn)}
 	var res rhp4.RPCFreeSectorsResult
 	var err error
 	old := sc.contract.Revision
@@ -630,7 +659,7 @@ func (w *world) runFree(sc *freeScen, c corr) *result {
 		if e != nil {
 			x.note("revise: %v", e)
 		}
-		sig := proto4.RPCFreeSectorsThirdResponse{HostSignature: w.hk.SignHash(w.cs.ContractSigHash(local))}
+		sig := proto4.RPCFreeSectorsThirdResponse{HostSignature: w.fSigner(sc.fgn).SignHash(w.cs.ContractSigHash(local))}
 		st.sig = &sigSt{w: w, sig: &sig.HostSignature, local: local, prev: old, other: sc.other.Revision, renterSig: rs.RenterSignature}
 		c.applyTyped(3, st)
 		b, _ = c.bytesOf(3, &sig)
@@ -675,7 +704,7 @@ func (w *world) runFree(sc *freeScen, c corr) *result {
 	}
 	r.coq = fmt.Sprintf("CFree %s %s %s %s %s %d %s %s %s %s", w.nview(old), w.nprices(sc.prices), nlist(sc.idx), nlist(seen), coqBool(dec1),
 		w.id(resp.NewMerkleRoot), coqBool(proofOK), coqBool(dec3), coqBool(sigOK), obs)
-	r.nontrivial = x.Streams > 0 && !c.honest()
+	r.nontrivial = x.Streams > 0 && (!c.honest() || sc.fgn != "")
 	return r
 }
 
@@ -696,6 +725,7 @@ type fundScen struct {
 	deposits []proto4.AccountDeposit
 	acctsOK  bool
 	full     bool
+	fgn      foreign
 }
 
 type fundSt struct {
@@ -730,11 +760,20 @@ func (w *world) fundScenarios() []fundScen {
 	}
 	z := mk("invalid-zero-account", 66, rich, []types.Currency{sc(1)}, false)
 	z.deposits[0].Account, z.acctsOK = proto4.Account{}, false
-	return append(s, z)
+	s = append(s, z)
+	for i, f := range []foreign{"b", "d"} { // no price table in this RPC
+		fs := mk(foreignNames[f], 67+byte(i), rich, []types.Currency{sc(1), sc(2)}, false)
+		fs.fgn = f
+		s = append(s, fs)
+	}
+	return s
 }
 
 func (w *world) fundCorrs(sc *fundScen) []corr {
 	cs := []corr{honestCorr}
+	if sc.fgn != "" {
+		return cs
+	}
 	add := func(name string, f func(st *fundSt)) {
 		cs = append(cs, corr{name: "msg1/" + name, msg: 1, typed: func(st any) { f(st.(*fundSt)) }})
 	}
@@ -765,7 +804,7 @@ func (w *world) fundCorrs(sc *fundScen) []corr {
 }
 
 func (w *world) runFund(sc *fundScen, c corr) *result {
-	r := &result{rpc: "fund", scen: sc.name, corr: c.name}
+	r := &result{rpc: "fund", scen: sc.name, corr: c.name, peer: w.fPeer(sc.fgn)}
 	var res rhp4.RPCFundAccountResult
 	var err error
 	old := sc.contract.Revision
@@ -790,7 +829,7 @@ func (w *world) runFund(sc *fundScen, c corr) *result {
 		if e != nil {
 			x.note("revise: %v", e)
 		}
-		resp.HostSignature = w.hk.SignHash(w.cs.ContractSigHash(local))
+		resp.HostSignature = w.fSigner(sc.fgn).SignHash(w.cs.ContractSigHash(local))
 		st := &fundSt{sc: sc, req: &req, resp: &resp}
 		st.sig = &sigSt{w: w, sig: &resp.HostSignature, local: local, prev: old, other: sc.other.Revision, renterSig: req.RenterSignature}
 		c.applyTyped(1, st)
@@ -826,7 +865,7 @@ func (w *world) runFund(sc *fundScen, c corr) *result {
 		}
 	}
 	r.coq = fmt.Sprintf("CFund %s [%s] %s %s %d %s %s", w.nview(old), strings.Join(amounts, "; "), coqBool(sc.acctsOK), coqBool(dec), len(resp.Balances), coqBool(sigOK), obs)
-	r.nontrivial = x.Streams > 0 && !c.honest()
+	r.nontrivial = x.Streams > 0 && (!c.honest() || sc.fgn != "")
 	return r
 }
 
@@ -840,6 +879,8 @@ type replScen struct {
 	target   types.Currency
 	give     []types.Currency // the host's honest deposits
 	full     bool
+	fgn      foreign
+	pools    bool // RPCReplenishPools instead of RPCReplenishAccounts (same wire types, same checks)
 }
 
 type replSt struct {
@@ -861,7 +902,7 @@ func (w *world) replenishScenarios() []replScen {
 	}
 	sc := types.Siacoins
 	half := types.NewCurrency(0, 1<<63) // 2^127
-	return []replScen{
+	s := []replScen{
 		mk("three-accounts-partly-full", 80, rich, sc(10), []types.Currency{sc(10), sc(3), types.ZeroCurrency}, true),
 		mk("one-account", 81, rich, sc(2), []types.Currency{sc(1)}, false),
 		mk("two-accounts-already-at-target", 82, rich, sc(2), []types.Currency{types.ZeroCurrency, types.ZeroCurrency}, true),
@@ -870,10 +911,23 @@ func (w *world) replenishScenarios() []replScen {
 		mk("invalid-zero-target", 85, rich, types.ZeroCurrency, []types.Currency{types.ZeroCurrency}, false),
 		mk("invalid-no-accounts", 86, rich, sc(1), nil, false),
 	}
+	for i, f := range []foreign{"b", "d"} { // no price table in this RPC
+		fs := mk(foreignNames[f], 87+byte(i), rich, sc(10), []types.Currency{sc(10), sc(3)}, false)
+		fs.fgn = f
+		s = append(s, fs)
+	}
+	// the same exchanges through RPCReplenishPools (short catalogue)
+	n := len(s)
+	for i := 0; i < n; i++ {
+		p := s[i]
+		p.pools, p.full = true, false
+		s = append(s, p)
+	}
+	return s
 }
 
 func (w *world) replenishCorrs(sc *replScen) []corr {
-	if sc.target.IsZero() || len(sc.accounts) == 0 {
+	if sc.target.IsZero() || len(sc.accounts) == 0 || sc.fgn != "" {
 		return []corr{honestCorr}
 	}
 	cs := []corr{honestCorr}
@@ -935,13 +989,17 @@ func (w *world) replenishCorrs(sc *replScen) []corr {
 }
 
 func (w *world) runReplenish(sc *replScen, c corr) *result {
-	r := &result{rpc: "replenish", scen: sc.name, corr: c.name}
+	r := &result{rpc: "replenish", scen: sc.name, corr: c.name, peer: w.fPeer(sc.fgn)}
+	rpcID := proto4.RPCReplenishAccountsID
+	if sc.pools {
+		r.rpc, rpcID = "replenish-pools", proto4.RPCReplenishPoolsID
+	}
 	var res rhp4.RPCReplenishAccountsResult
 	var err error
 	old := sc.contract.Revision
 	handler := func(s net.Conn, x *xchg) {
 		var req proto4.RPCReplenishAccountsRequest
-		if !readReq(s, x, proto4.RPCReplenishAccountsID, &req) {
+		if !readReq(s, x, rpcID, &req) {
 			return
 		}
 		var resp proto4.RPCReplenishAccountsResponse
@@ -972,13 +1030,19 @@ func (w *world) runReplenish(sc *replScen, c corr) *result {
 				x.note("revise: %v", e)
 			}
 		}
-		sig := proto4.RPCReplenishAccountsThirdResponse{HostSignature: w.hk.SignHash(w.cs.ContractSigHash(local))}
+		sig := proto4.RPCReplenishAccountsThirdResponse{HostSignature: w.fSigner(sc.fgn).SignHash(w.cs.ContractSigHash(local))}
 		st.sig = &sigSt{w: w, sig: &sig.HostSignature, local: local, prev: old, other: sc.other.Revision, renterSig: rs.RenterSignature}
 		c.applyTyped(3, st)
 		b, _ = c.bytesOf(3, &sig)
 		x.send(s, b)
 	}
 	x := w.do(r, handler, func(ctx context.Context, t rhp4.TransportClient) {
+		if sc.pools {
+			var pr rhp4.RPCReplenishPoolsResult
+			pr, err = rhp4.RPCReplenishPools(ctx, t, rhp4.RPCReplenishPoolsParams{Pools: sc.accounts, Target: sc.target, Contract: sc.contract}, w.cs, w.rk)
+			res = rhp4.RPCReplenishAccountsResult{Revision: pr.Revision, Deposits: pr.Deposits, Usage: pr.Usage}
+			return
+		}
 		res, err = rhp4.RPCReplenishAccounts(ctx, t, rhp4.RPCReplenishAccountsParams{Accounts: sc.accounts, Target: sc.target, Contract: sc.contract}, w.cs, w.rk)
 	})
 	r.setErr(err)
@@ -1022,7 +1086,7 @@ func (w *world) runReplenish(sc *replScen, c corr) *result {
 		w.checkRevision(r, old, res.Revision, res.Usage, total, big.NewInt(0), old.FileMerkleRoot, old.Filesize, old.Capacity, bump)
 	}
 	r.coq = fmt.Sprintf("CReplenish %s %d %s %s [%s] %s %s %s", w.nview(old), len(sc.accounts), sc.target.Big(), coqBool(dec1), strings.Join(amounts, "; "), coqBool(dec3), coqBool(sigOK), obs)
-	r.nontrivial = x.Streams > 0 && !c.honest()
+	r.nontrivial = x.Streams > 0 && (!c.honest() || sc.fgn != "")
 	return r
 }
 
@@ -1054,11 +1118,21 @@ func passCorrs() []corr {
 			st.set.Settings.Prices.EgressPrice = types.Siacoins(1)
 		}
 	})
+	add("foreign-peer-signs-the-revision", func(st *passSt) {
+		if st.latest != nil {
+			st.latest.Contract.HostSignature = st.w.pk2.SignHash(st.w.cs.ContractSigHash(st.latest.Contract))
+		} else {
+			st.set.Settings.Prices.Signature = st.w.pk2.SignHash(st.set.Settings.Prices.SigHash())
+		}
+	})
 	return append(cs, rawCorrs(1)...)
 }
 
 func (w *world) runLatest(c corr) *result {
 	r := &result{rpc: "latest", scen: "contract-a", corr: c.name}
+	if strings.Contains(c.name, "foreign-peer") {
+		r.peer = w.pk2
+	}
 	con, _ := w.contract(120, 3, 0, rich)
 	var res proto4.RPCLatestRevisionResponse
 	var err error
